@@ -61,6 +61,15 @@ func handle(r Req) (resp Resp) {
 		}
 	case "lex":
 		resp.Tokens = hz.Lex(r.Src)
+	case "format2":
+		// the same text under font f1 first, then under f2 (one FontConfig)
+		r.Font.FormatText(r.Src, r.MaxWidth, r.Overlap, "f1", r.NumLines)
+		out, err := r.Font.FormatText(r.Src, r.MaxWidth, r.Overlap, "f2", r.NumLines)
+		resp.Out = out
+		if err != nil {
+			resp.IsErr = true
+			resp.Err = err.Error()
+		}
 	case "format":
 		out, err := r.Font.FormatText(r.Src, r.MaxWidth, r.Overlap, r.FontID, r.NumLines)
 		resp.Out = out
